@@ -237,8 +237,21 @@ class VIter:
 
 
 class VSymIter:
-    def __init__(self, sym):
+    """an iterator over a collection of unknown length.  `sym` names the (possibly mapped) sequence; `base` / `elem` are its NORMAL
+    FORM: the underlying collection and the value of the generic element as a function of base[*] -- so that
+    xs.iter().map(f).map(g).for_each(h)  and  for x in xs { h(g(f(x))) }  leave the same trace."""
+
+    def __init__(self, sym, base=None, elem=None):
+        self.base = base if base is not None else sym
+        self.elem = elem if elem is not None else Sym(sym.path + "[*]")
         self.sym = sym
+
+    @staticmethod
+    def mapped(src, body):
+        ident = isinstance(body, (Sym, VOpaque, Poly)) and canon(body) == src.base.path + "[*]"
+        if ident:
+            return VSymIter(src.base)
+        return VSymIter(Sym(VOpaque("map_each", [src.base, body]).canon()), base=src.base, elem=body)
 
 
 class VClosure:
@@ -486,6 +499,19 @@ class Interp:
                     self.bind(p, v, env)
             else:
                 raise OutsideFragment("slice pattern against non-array")
+        elif k == "struct":
+            # `Type { a, b: p, .. }`: field projections of the value
+            for f in pat["fields"]:
+                m = f["member"].strip()
+                if isinstance(val, VStruct):
+                    if m not in val.fields:
+                        raise OutsideFragment(f"struct pattern: no field {m}")
+                    v = val.fields[m]
+                elif isinstance(val, (Sym, VOpaque)):
+                    v = Sym(f"{canon(val)}.{m}")
+                else:
+                    raise OutsideFragment(f"struct pattern against {type(val).__name__}")
+                self.bind(f["pat"], v, env)
         else:
             raise OutsideFragment(f"pattern kind {k}")
 
@@ -885,23 +911,40 @@ class Interp:
             items = [VRefCell(it, i) for i in range(len(it.items))]      # `for x in &mut v`: x is a mutable reference to the cell
         elif isinstance(it, (VIter, VArr)):
             items = it.items
-        elif isinstance(it, VSymIter):
+        elif isinstance(it, (VSymIter, VSymEnum)):
             # a loop over a collection of unknown length: the body is executed ONCE on the generic element; its events and
             # early exits are recorded as one event "for every element, in order"; pushes onto outer vectors add one
-            # generic entry `for_each_pushed(collection, value)`
+            # generic entry `for_each_pushed(collection, value)`.
+            # LOOP-CARRIED scalars (outer variables the body assigns): the iteration starts from a fresh symbol
+            # `carried:<name>` (any value an earlier iteration may have left), the value at the end of the body is recorded as
+            # a `carried_update` entry of the iteration summary (the per-iteration TRANSITION is what the contract states), and
+            # after the loop the variable is unknown.
             env2 = dict_child(env)
-            self.bind(e["pat"], Sym(it.sym.path + "[*]"), env2)
+            base = getattr(it, "base", it.sym)
+            el = getattr(it, "elem", None)
+            if el is None:
+                el = Sym(it.sym.path + "[*]")
+            self.bind(e["pat"], VTuple([Sym(it.sym.path + "[#]"), el]) if isinstance(it, VSymEnum) else el, env2)
+            carried = sorted(n for n in _assigned_names(e["body"]) if n in env and n not in _pat_names(e["pat"]) and n not in _let_names(e["body"])
+                             and not isinstance(env[n], (VArr, VCoeffVec, VStruct)))
+            for n in carried:
+                set_var(env, n, Sym(f"carried:{n}"))
             saved_log, saved_exits, saved_loop = self.ctx.log, self.ctx.exits, getattr(self, "generic_loop", None)
-            self.ctx.log, self.ctx.exits, self.generic_loop = [], [], it.sym
+            self.ctx.log, self.ctx.exits, self.generic_loop = [], [], base
             try:
                 try:
                     self.block(e["body"], env2)
                 except Continue:
                     pass
+                for n in carried:
+                    self.ctx.log.append(("carried_update", n, env[n]))
                 sub_log, sub_exits = tuple(self.ctx.log), tuple(self.ctx.exits)
             finally:
                 self.ctx.log, self.ctx.exits, self.generic_loop = saved_log, saved_exits, saved_loop
-            self.ctx.event("for_each_in_order", it.sym.path, sub_log, sub_exits)
+            for n in carried:
+                set_var(env, n, VOpaque(f"after_loop:{n}"))
+            if sub_log or sub_exits:        # a loop without trace effects leaves no event (same as the `for_each` form)
+                self.ctx.event("for_each_in_order", base.path, sub_log, sub_exits)
             return UNIT
         elif isinstance(it, VPointwise):
             # the body is executed once on the generic index: every coefficient is updated the same way, i.e. the
@@ -988,7 +1031,8 @@ class Interp:
                     self.fail(e, "early return inside a symbolic branch")
                 sub = tuple(self.ctx.log)
                 self.ctx.log = saved
-                self.ctx.event("if", canon(c), sub)
+                if sub:
+                    self.ctx.event("if", canon(c), sub)
                 return UNIT
         # general case: path splitting.  The run is repeated once per combination of decisions (driver in run_unit).
         if not isinstance(c, (VOpaque, Sym)):
@@ -1442,27 +1486,30 @@ class Interp:
                 return VIter([VTuple([recv.items[i], a.items[i]]) for i in range(n)])
             self.fail(e, "zip on symbolic iterator")
         if m == "map" and isinstance(recv, VSymIter) and isinstance(args[0], VOpaque) and args[0].name.startswith("fn:"):
-            return VSymIter(Sym(VOpaque("map_each", [recv.sym, VOpaque(args[0].name[3:], [Sym(recv.sym.path + "[*]")])]).canon()))
+            fname = args[0].name[3:]
+            if fname.split("::")[-1] in PURE_GETTERS and "::" in fname:
+                fname = fname.split("::")[-1]        # `u64::to_be_bytes` as a function value == the method `.to_be_bytes()`
+            return VSymIter.mapped(recv, VOpaque(fname, [recv.elem]))
         if m == "map" and isinstance(recv, VSymIter) and isinstance(args[0], VClosure):
             # map over a collection of unknown length: the closure is run once on the generic element; the result is the
             # uninterpreted collection  map_each(xs, f(xs[*]))  (order preserving, one output per input)
             saved = self.ctx.log
             self.ctx.log = []
-            body = self.call_closure(args[0], [Sym(recv.sym.path + "[*]")])
+            body = self.call_closure(args[0], [recv.elem])
             if self.ctx.log:
                 self.ctx.log = saved
                 self.fail(e, "effects inside map over a symbolic collection")
             self.ctx.log = saved
-            return VSymIter(Sym(VOpaque("map_each", [recv.sym, body]).canon()))
+            return VSymIter.mapped(recv, body)
         if m in ("any", "all") and isinstance(recv, VSymIter) and isinstance(args[0], VClosure):
             saved = self.ctx.log
             self.ctx.log = []
-            body = self.call_closure(args[0], [Sym(recv.sym.path + "[*]")])
+            body = self.call_closure(args[0], [recv.elem])
             if self.ctx.log:
                 self.ctx.log = saved
                 self.fail(e, "effects inside any/all over a symbolic collection")
             self.ctx.log = saved
-            return VOpaque(m, [recv.sym, body])
+            return VOpaque(m, [recv.base, body])
         if m in ("any", "all") and isinstance(recv, (VIter, VArr)) and isinstance(args[0], VClosure):
             # short-circuit semantics element by element; a symbolic predicate value forks the path
             for x in recv.items:
@@ -1528,14 +1575,14 @@ class Interp:
             # `xs.iter().for_each(|x| B)` over a slice of unknown length: B is executed once on the generic
             # element xs[*]; its transcript events are recorded as ONE event "for every element, in order".
             saved, saved_loop = self.ctx.log, getattr(self, "generic_loop", None)
-            self.ctx.log, self.generic_loop = [], recv.sym
+            self.ctx.log, self.generic_loop = [], recv.base
             try:
-                self.call_closure(args[0], [Sym(recv.sym.path + "[*]")])
+                self.call_closure(args[0], [recv.elem])
                 sub = tuple(self.ctx.log)
             finally:
                 self.ctx.log, self.generic_loop = saved, saved_loop
             if sub:
-                self.ctx.event("for_each_in_order", recv.sym.path, sub)
+                self.ctx.event("for_each_in_order", recv.base.path, sub)
             return UNIT
         if m == "for_each" and isinstance(recv, VIter) and isinstance(args[0], VClosure):
             for x in recv.items:
@@ -1775,6 +1822,36 @@ def _pat_names(pat):
     if k == "struct":
         return [n for f in pat["fields"] for n in _pat_names(f["pat"])]
     return []
+
+
+def _assigned_names(node):
+    """names that occur as the base of an assignment target (`x = ..`, `x += ..`, `x[i] = ..`, `*x = ..`) in a block"""
+    out = set()
+    if isinstance(node, dict):
+        k = node.get("k")
+        if k == "assign" or (k == "binary" and node.get("op") in COMPOUND_ASSIGN):
+            b = _base_name(node["l"])
+            if b:
+                out.add(b)
+        for v in node.values():
+            out |= _assigned_names(v)
+    elif isinstance(node, list):
+        for v in node:
+            out |= _assigned_names(v)
+    return out
+
+
+def _let_names(node):
+    out = set()
+    if isinstance(node, dict):
+        if node.get("k") == "let":
+            out |= set(_pat_names(node["pat"]))
+        for v in node.values():
+            out |= _let_names(v)
+    elif isinstance(node, list):
+        for v in node:
+            out |= _let_names(v)
+    return out
 
 
 def _has_mutation(node):
@@ -2050,6 +2127,7 @@ def run_unit(root, unit, contracts, seed=0, perturb=None):
             if isinstance(c, VOpaque) and c.name == "eq" and len(c.args) == 2:
                 dec[canon(VOpaque("ne", list(c.args)))] = not t
         it2.decided = lambda key: dec.get(key)
+        it2.decided_keys = sorted(dec)
         plist = unit.closure_params if unit.closure else unit.params
         args2 = [mk() for (_n, mk) in plist]
         recv2 = args2[0] if plist and plist[0][0] == "self" else None
@@ -2298,7 +2376,8 @@ def _shape(v):
     if isinstance(v, list):
         return [(_shape(x)) for x in v]
     if isinstance(v, tuple) and v and isinstance(v[0], str):
-        return (v[0], len(v))
+        # nested event lists (the summary of a generic loop, a guarded block) count: their skeleton is part of the shape
+        return (v[0], len(v), tuple(_shape(list(x)) for x in v[1:] if isinstance(x, (tuple, list)) and x and isinstance(x[0], tuple)))
     return None
 
 
